@@ -22,6 +22,7 @@ import (
 	"github.com/btcsuite/btcd/btcutil/v2/gcs/builder"
 	"github.com/btcsuite/btcd/chaincfg/v2"
 	"github.com/btcsuite/btcd/chainhash/v2"
+	"github.com/btcsuite/btcd/txscript/v2"
 	"github.com/btcsuite/btcd/wire/v2"
 	_ "github.com/btcsuite/btcwallet/walletdb/bdb"
 	"github.com/lightninglabs/neutrino"
@@ -82,6 +83,7 @@ type world struct {
 	gbFail  map[int]bool // heights at which GetBlock fails
 	mid     *midReorg    // a reorganisation to perform while the cfheaders query is out
 	nonce   uint32
+	sidOf   map[string]int
 }
 
 // peers get fresh addresses in every case (the ban record of the hook is per address)
@@ -314,8 +316,30 @@ func (w *world) newBlock(prev *blk) *blk {
 				pk[0] = 0x02
 				sig := make([]byte, 71)
 				w.r.Read(sig)
-				tx.AddTxIn(wire.NewTxIn(wire.NewOutPoint(&ph, uint32(j)), nil, wire.TxWitness{sig, pk}))
-				b.prevScr = append(b.prevScr, append([]byte{0x00, 0x14}, address.Hash160(pk)...))
+				switch w.r.Intn(5) {
+				case 2:
+					// a taproot key spend: one 64-byte signature.  ComputePkScript takes it for
+					// a P2WSH witness, the script it derives is not the P2TR script spent (and
+					// not in the true filter): the mismatch must only be logged
+					tx.AddTxIn(wire.NewTxIn(wire.NewOutPoint(&ph, uint32(j)), nil, wire.TxWitness{sig[:64]}))
+					b.prevScr = append(b.prevScr, append([]byte{0x51, 0x20}, pk[1:]...))
+					w.t.Hit("block.taproot-input")
+				case 3:
+					// witness data next to a signature script that is not push-only:
+					// ErrUnsupportedScriptType, the input is skipped
+					tx.AddTxIn(wire.NewTxIn(wire.NewOutPoint(&ph, uint32(j)), []byte{0x76, 0xa9}, wire.TxWitness{sig, pk}))
+					b.prevScr = append(b.prevScr, w.randScript(w.r.Intn(2)))
+					w.t.Hit("block.unsupported-input")
+				case 4:
+					// P2SH-nested P2WPKH: the signature script pushes the redeem script
+					redeem := append([]byte{0x00, 0x14}, address.Hash160(pk)...)
+					tx.AddTxIn(wire.NewTxIn(wire.NewOutPoint(&ph, uint32(j)), append([]byte{byte(len(redeem))}, redeem...), wire.TxWitness{sig, pk}))
+					b.prevScr = append(b.prevScr, append(append([]byte{0xa9, 0x14}, address.Hash160(redeem)...), 0x87))
+					w.t.Hit("block.nested-input")
+				default:
+					tx.AddTxIn(wire.NewTxIn(wire.NewOutPoint(&ph, uint32(j)), nil, wire.TxWitness{sig, pk}))
+					b.prevScr = append(b.prevScr, append([]byte{0x00, 0x14}, address.Hash160(pk)...))
+				}
 				w.t.Hit("block.witness-input")
 			} else {
 				tx.AddTxIn(wire.NewTxIn(wire.NewOutPoint(&ph, uint32(j)), nil, nil))
@@ -353,6 +377,11 @@ func (w *world) newBlock(prev *blk) *blk {
 			w.t.Hit("block.unparsable-output")
 		}
 		b.txOuts = append(b.txOuts, outs)
+		if w.r.Intn(6) == 0 {
+			// an output with an empty script: neither committed to by BIP158 nor looked at
+			tx.AddTxOut(wire.NewTxOut(0, nil))
+			w.t.Hit("block.empty-output")
+		}
 		if w.r.Intn(3) == 0 {
 			s := w.randScript(2)
 			b.opret = s
@@ -478,6 +507,90 @@ func (w *world) gtRow(fid int, b *blk) string {
 		}
 	}
 	return "k"
+}
+
+// vbRow describes the block the way VerifyBasicBlockFilter classifies it (every
+// transaction, coinbase first: outputs empty / OP_RETURN / ordinary, inputs
+// without witness / script not computable / computed) together with the real
+// filter's Match answer for every script the function can ask about, and the
+// real function's verdict.  The Lean model of the function is run on the
+// left-hand side and must give the right-hand side.
+//
+//	T            a transaction starts
+//	oe           output with an empty script
+//	or:<s>:<m>   OP_RETURN output, script id s, Match answer m (1 / 0 / e = error)
+//	oo:<s>:<m>   any other output
+//	in iu if     input without witness / ErrUnsupportedScriptType / other ComputePkScript error
+//	ic:<s>:<m>   input whose previous script was computed
+func (w *world) vbRow(fid int, b *blk) string {
+	f := w.filters[fid]
+	key := builder.DeriveKey(&b.hash)
+	m := func(s []byte) string {
+		if f == nil {
+			return "e"
+		}
+		ok, err := f.Match(key, s)
+		switch {
+		case err != nil:
+			return "e"
+		case ok:
+			return "1"
+		}
+		return "0"
+	}
+	var sb strings.Builder
+	for _, tx := range b.msg.Transactions {
+		sb.WriteString("T ")
+		for _, o := range tx.TxOut {
+			switch {
+			case len(o.PkScript) == 0:
+				sb.WriteString("oe ")
+				w.t.Hit("verify.out-empty")
+			case o.PkScript[0] == txscript.OP_RETURN:
+				fmt.Fprintf(&sb, "or:%d:%s ", w.sid(o.PkScript), m(o.PkScript))
+				w.t.Hit("verify.out-opreturn")
+			default:
+				fmt.Fprintf(&sb, "oo:%d:%s ", w.sid(o.PkScript), m(o.PkScript))
+			}
+		}
+		for _, in := range tx.TxIn {
+			if len(in.Witness) == 0 {
+				sb.WriteString("in ")
+				continue
+			}
+			scr, err := txscript.ComputePkScript(in.SignatureScript, in.Witness)
+			switch {
+			case err == txscript.ErrUnsupportedScriptType:
+				sb.WriteString("iu ")
+				w.t.Hit("verify.in-unsupported")
+			case err != nil:
+				sb.WriteString("if ")
+				w.t.Hit("verify.in-failed")
+			default:
+				r := m(scr.Script())
+				fmt.Fprintf(&sb, "ic:%d:%s ", w.sid(scr.Script()), r)
+				w.t.Hit("verify.in-computed-" + r)
+			}
+		}
+	}
+	if f == nil {
+		// no filter object: the driver never calls the function (verifyRow says "b")
+		return strings.TrimSpace(sb.String()) + " => nofilter"
+	}
+	return strings.TrimSpace(sb.String()) + " => " + w.verifyRow(fid, b)
+}
+
+// sid interns a script.
+func (w *world) sid(s []byte) int {
+	if w.sidOf == nil {
+		w.sidOf = map[string]int{}
+	}
+	id, ok := w.sidOf[string(s)]
+	if !ok {
+		id = len(w.sidOf) + 1
+		w.sidOf[string(s)] = id
+	}
+	return id
 }
 
 // verifyRow runs the real VerifyBasicBlockFilter.
